@@ -1,36 +1,68 @@
 #!/usr/bin/env python3
 """Re-evaluate every /verif/seeded/<name>/patch.diff with the current rules and
-update checks_fired / detected in its meta.json (scratch worktree, not /repo)."""
+update checks_fired / detected in its meta.json (scratch worktrees, not /repo).
+
+usage: refresh_seeded.py [name-fragment ...]     (default: all seeds)
+Three seeds are evaluated at a time, each in its own worktree."""
 import json, os, shutil, subprocess, sys, tempfile
 from concurrent.futures import ThreadPoolExecutor
 from pathlib import Path
+from queue import Queue
+
 VERIF = Path(__file__).resolve().parent.parent
+WORKERS = 3
+
+
 def sh(cmd, cwd=None, env=None):
-    p = subprocess.run(cmd, shell=True, cwd=cwd, env=env, capture_output=True, text=True, timeout=900)
+    p = subprocess.run(cmd, shell=True, cwd=cwd, env=env, capture_output=True, text=True, timeout=1800)
     return p.returncode, p.stdout + p.stderr
+
+
 props = [c["property_id"] for c in json.loads((VERIF / "MANIFEST.json").read_text())["checks"]]
-wt = tempfile.mkdtemp(prefix="refresh_wt_"); shutil.rmtree(wt)
-sh(f"git -C /repo worktree add -q --detach {wt} HEAD")
-try:
-    for meta in sorted((VERIF / "seeded").glob("*/meta.json")):
+only = sys.argv[1:]
+metas = [m for m in sorted((VERIF / "seeded").glob("*/meta.json")) if not only or any(o in m.parent.name for o in only)]
+pool: Queue = Queue()
+wts = []
+for _ in range(WORKERS):
+    wt = tempfile.mkdtemp(prefix="refresh_wt_")
+    shutil.rmtree(wt)
+    sh(f"git -C /repo worktree add -q --detach {wt} HEAD")
+    wts.append(wt)
+    pool.put(wt)
+
+
+def one(meta: Path) -> str:
+    wt = pool.get()
+    try:
         m = json.loads(meta.read_text())
-        sh("git checkout -- .", cwd=wt)
+        sh("git checkout -- . && git clean -fdq", cwd=wt)
         rc, o = sh(f"git apply {meta.parent / 'patch.diff'}", cwd=wt)
         if rc:
-            print(m["name"], "patch does not apply:", o[:200]); continue
+            return f"{m['name']} patch does not apply: {o[:200]}"
         out = tempfile.mkdtemp(prefix="refresh_out_")
         env = dict(os.environ, NAUYACA_SRC=f"{wt}/src/nauyaca", NAUYACA_SA_OUT=out, PYTHONPATH=str(VERIF))
+
         def run(pid):
             rc, o = sh(f"/venv/bin/python -m nauyaca_sa check {pid} --tier quick", cwd=VERIF, env=env)
             keys = [l.split("finding ", 1)[1].strip() for l in o.splitlines() if l.strip().startswith("finding ")]
             return pid, rc, keys, [l for l in o.splitlines() if "ANALYSIS-ERROR" in l][:1]
-        with ThreadPoolExecutor(max_workers=10) as ex:
+
+        with ThreadPoolExecutor(max_workers=5) as ex:
             res = list(ex.map(run, props))
         shutil.rmtree(out, ignore_errors=True)
         m["checks_fired"] = {pid: {"rc": rc, "findings": keys, "error": err} for pid, rc, keys, err in res if rc != 0}
         m["detected"] = any(v["rc"] == 1 for v in m["checks_fired"].values())
         m["detected_by_target_property"] = m["property"] in m["checks_fired"] and m["checks_fired"][m["property"]]["rc"] == 1
         meta.write_text(json.dumps(m, indent=1))
-        print(m["name"], "->", {k: len(v["findings"]) for k, v in m["checks_fired"].items()}, "target:", m["detected_by_target_property"])
+        return f"{m['name']} -> {({k: len(v['findings']) for k, v in m['checks_fired'].items()})} target: {m['detected_by_target_property']}"
+    finally:
+        pool.put(wt)
+
+
+try:
+    with ThreadPoolExecutor(max_workers=WORKERS) as ex:
+        for line in ex.map(one, metas):
+            print(line, flush=True)
 finally:
-    sh(f"git -C /repo worktree remove --force {wt}")
+    for wt in wts:
+        sh(f"git -C /repo worktree remove --force {wt}")
